@@ -1021,8 +1021,31 @@ class Engine:
                 return True
         return False
 
+    def _new_exc(self, ctx: Ctx, contract: Contract, ns: NS, xname: str) -> ExcVal:
+        """The exception a callee raises according to its contract; `exc_fields(s, class name) -> {field: value}` of the
+        contract states the location fields it carries (checked by `_check_exc_fields` when the callee is verified)."""
+        exc = ExcVal(self.exc_class(xname))
+        ef = getattr(contract.impl, "exc_fields", None) or getattr(contract, "exc_fields", None)
+        if ef is not None:
+            for fname, val in (self.run_spec(ctx, ef, ns, xname) or {}).items():
+                exc.fields[fname] = val
+        return exc
+
+    def _check_exc_fields(self, ctx: Ctx, contract: Contract, ns: NS, exc: ExcVal):
+        ef = getattr(contract.impl, "exc_fields", None) or getattr(contract, "exc_fields", None)
+        if ef is None or not isinstance(exc.cls, ClassInfo):
+            return
+        from . import mutstate
+
+        for fname, val in (self.run_spec(ctx, ef, ns, exc.clsname) or {}).items():
+            actual = self.lib.exc_attr(ctx, exc, fname)
+            c = mutstate.identical(self, ctx, actual, val)
+            ctx.oblige("%s/raises-carries#%s#%s" % (short(ctx.func), exc.clsname, fname), lift_bool(c), kind="raises",
+                       info={"origin": exc.fields.get("__origin__")})
+
     def _check_raise(self, ctx: Ctx, contract: Contract, ns: NS, exc: ExcVal):
         matched = None
+        self._check_exc_fields(ctx, contract, ns, exc)
         for xname, cond in getattr(contract, "raises_implies", {}).items():
             if self.exc_matches(exc, xname):
                 ns.__dict__["exc"] = exc
@@ -2011,6 +2034,14 @@ class Engine:
                 for av in bound.values():
                     if isinstance(av, Obj) and av.fields is not None and av is not nsd["self"] and not self._owns_state(av.cls):
                         mutstate.publish(self, ctx, av)
+        for pname, pval in list(nsd.items()):
+            if pname != "self" and isinstance(pval, Obj) and pval.fields is not None:
+                from . import mutstate
+
+                if self._owns_state(pval.cls):
+                    ns.__dict__["old_" + pname] = mutstate.snapshot(pval)  # pre-state of a materialised (mutable) argument
+                elif getattr(contract.impl, "publishes_args", False):
+                    mutstate.publish(self, ctx, pval)  # a fresh immutable object handed to a constructor that keeps it
         callee = short(contract.qualname)
         for label, c in self.run_spec(ctx, lambda: contract.clauses("pre", ns)):
             ctx.oblige("%s/pre#%s#%s" % (short(ctx.func), callee, label), lift_bool(c), kind="pre")
@@ -2031,13 +2062,13 @@ class Engine:
         for idx, (xname, cond) in enumerate(names):
             if cond is None:
                 if ctx.choose(2) == 1:
-                    raise PyRaise(ExcVal(self.exc_class(xname)))
+                    raise PyRaise(self._new_exc(ctx, contract, ns, xname))
                 continue
             c = lift_bool(self.run_spec(ctx, cond, ns))
             if ctx.decide(c):
                 later = any(cn is not None for _, cn in names[idx + 1:])
                 if not later or ctx.choose(2) == 0:
-                    raise PyRaise(ExcVal(self.exc_class(xname)))
+                    raise PyRaise(self._new_exc(ctx, contract, ns, xname))
                 pending_raise = True
         if pending_raise:
             raise PathEnd()  # some condition held: a normal return is excluded by the contract
@@ -2045,7 +2076,7 @@ class Engine:
             c = lift_bool(self.run_spec(ctx, cond, ns))
             if self.feasible(ctx, c) and ctx.choose(2) == 1:
                 ctx.assume(c)
-                raise PyRaise(ExcVal(self.exc_class(xname)))
+                raise PyRaise(self._new_exc(ctx, contract, ns, xname))
         for xname, cond in contract.raises_if.items():
             if ctx.choose(2) == 1:
                 exc = ExcVal(self.exc_class(xname))
@@ -2054,7 +2085,7 @@ class Engine:
                 raise PyRaise(exc)
         for xname in contract.may_raise:
             if ctx.choose(2) == 1:
-                raise PyRaise(ExcVal(self.exc_class(xname)))
+                raise PyRaise(self._new_exc(ctx, contract, ns, xname))
         is_init = finfo.name == "__init__"
         result = None
         if is_init:
